@@ -433,9 +433,12 @@ def _sp_re_func(f, a, k):
     flags = k.pop('flags', 0)
     pat = a[0]
     rest = list(a[1:])
-    if name == 'sub':
+    if name in ('sub', 'subn'):
         if len(rest) > 3:
             flags = rest.pop(3)
+    elif name == 'split':
+        if len(rest) > 2:
+            flags = rest.pop(2)
     elif len(rest) > 1:
         flags = rest.pop(1)
     p = SPattern(_re.compile(pat, flags)) if not isinstance(pat, SPattern) else pat
@@ -543,6 +546,7 @@ SPECIAL = {
     frozenset: _sp_container,
     _re.compile: _sp_compile, _re.match: _sp_re_func, _re.search: _sp_re_func,
     _re.fullmatch: _sp_re_func, _re.sub: _sp_re_func, _re.finditer: _sp_re_func,
+    _re.subn: _sp_re_func, _re.split: _sp_re_func, _re.findall: _sp_re_func,
     builtins.len: _sp_len, builtins.ord: _sp_ord, builtins.repr: _sp_repr,
     builtins.min: _sp_minmax, builtins.max: _sp_minmax, builtins.sum: _sp_sum,
     _json.loads: _sp_json_loads, _json.dumps: _sp_json_dumps,
